@@ -14,8 +14,8 @@
  * position: for every i < r, s[i] != 0.  A stub may assume any finite set of
  * instances of that universally quantified fact (fewer assumptions = more
  * behaviours = sound).  The instances used here are the ghost positions
- * vg_k, vg_j, vg_n1, vg_n2 and the result of the previous strlen-family call
- * (vg_slen).  The last one makes two consecutive measurements of the same
+ * 0, vg_k, vg_j, vg_n1, vg_n2, vg_l1, vg_l2, vg_l3 and the result of the previous
+ * strlen-family call (vg_slen).  The last one makes two consecutive measurements of the same
  * unchanged text agree (strlen then strcpy in spif_str_init_from_num).
  */
 #ifndef VERIF_ENV_STR_H
@@ -25,10 +25,15 @@
  * (stub-written; listed in assigns) */
 size_t vg_slen;
 const char *vg_slen_ptr;
+/* ghost instance positions bound by contracts: vg_l1 == self->len, vg_l2 == other->len (a `requires` equates
+ * them; they are arbitrary, so this restricts nothing), vg_l3 free for a unit's own use */
+size_t vg_l1, vg_l2, vg_l3;
 
 #define VSTR_MINIMAL_AT(s, r, i) __CPROVER_assume(!((i) < (r)) || (s)[(i)] != 0)
 #define VSTR_MINIMAL(s, r) do { VSTR_MINIMAL_AT(s, r, vg_k); VSTR_MINIMAL_AT(s, r, vg_j); \
-        VSTR_MINIMAL_AT(s, r, vg_n1); VSTR_MINIMAL_AT(s, r, vg_n2); VSTR_MINIMAL_AT(s, r, vg_slen); } while (0)
+        VSTR_MINIMAL_AT(s, r, vg_n1); VSTR_MINIMAL_AT(s, r, vg_n2); VSTR_MINIMAL_AT(s, r, vg_slen); \
+        VSTR_MINIMAL_AT(s, r, vg_l1); VSTR_MINIMAL_AT(s, r, vg_l2); VSTR_MINIMAL_AT(s, r, vg_l3); \
+        VSTR_MINIMAL_AT(s, r, (size_t) 0); } while (0)
 
 /* pure length oracle (writes nothing): some NUL position inside the object, minimal at the ghost instances */
 size_t vstr_len_pure(const char *s)
@@ -44,6 +49,7 @@ size_t strlen(const char *s)
 {
     __CPROVER_assert(s != NULL, "strlen: argument not NULL");
     __CPROVER_assert(__CPROVER_r_ok(s, 1), "strlen: argument readable");
+    __CPROVER_assume(s != NULL && __CPROVER_r_ok(s, 1));
     size_t r = vstr_len_pure(s);
     vg_slen = r;
     vg_slen_ptr = s;
@@ -84,6 +90,7 @@ char *strdup(const char *s)
 {
     __CPROVER_assert(s != NULL, "strdup: argument not NULL");
     __CPROVER_assert(__CPROVER_r_ok(s, 1), "strdup: argument readable");
+    __CPROVER_assume(s != NULL && __CPROVER_r_ok(s, 1));
     size_t n = vstr_len_pure(s);
     char *r = malloc(n + 1);
     memcpy(r, s, n + 1);
@@ -153,6 +160,7 @@ char *strchr(const char *s, int c)
 {
     __CPROVER_assert(s != NULL, "strchr: argument not NULL");
     __CPROVER_assert(__CPROVER_r_ok(s, 1), "strchr: argument readable");
+    __CPROVER_assume(s != NULL && __CPROVER_r_ok(s, 1));       /* failures above are reported; valid calls only below */
     size_t n = vstr_len_pure(s);
     if (nondet_bool()) {
         __CPROVER_assume((char) c != 0);
@@ -168,6 +176,7 @@ char *strrchr(const char *s, int c)
 {
     __CPROVER_assert(s != NULL, "strrchr: argument not NULL");
     __CPROVER_assert(__CPROVER_r_ok(s, 1), "strrchr: argument readable");
+    __CPROVER_assume(s != NULL && __CPROVER_r_ok(s, 1));
     size_t n = vstr_len_pure(s);
     if (nondet_bool()) {
         __CPROVER_assume((char) c != 0);
@@ -185,6 +194,7 @@ char *strstr(const char *h, const char *nd)
 {
     __CPROVER_assert(h != NULL && nd != NULL, "strstr: arguments not NULL");
     __CPROVER_assert(__CPROVER_r_ok(h, 1) && __CPROVER_r_ok(nd, 1), "strstr: arguments readable");
+    __CPROVER_assume(h != NULL && nd != NULL && __CPROVER_r_ok(h, 1) && __CPROVER_r_ok(nd, 1));
     size_t n = vstr_len_pure(h);
     size_t m = vstr_len_pure(nd);
     if (m == 0) return (char *) h;
@@ -194,6 +204,57 @@ char *strstr(const char *h, const char *nd)
     __CPROVER_assume(h[r] == nd[0]);
     __CPROVER_assume(!(vg_k < m) || h[r + vg_k] == nd[vg_k]);    /* match content (instance vg_k) */
     return (char *) h + r;
+}
+
+/* ---- comparison family (pure) -----------------------------------------------------
+ * The value is that of an UNINTERPRETED function of the two pointers (and the count): nothing is
+ * assumed about it except what every implementation guarantees for texts that do not change between
+ * two calls - the same arguments give the same answer, a text equals itself, and swapping the
+ * arguments swaps the sign.  (Transitivity is stated where it is used: C05 lemma units.)  Contracts can
+ * therefore say "the result is the sign of libc's answer".  Arguments must be non-NULL and readable
+ * (asserted).  ASSUMES the compared texts are not modified between two comparisons in one unit. */
+int __CPROVER_uninterpreted_vstr_cmp(const char *a, const char *b);
+int __CPROVER_uninterpreted_vstr_casecmp(const char *a, const char *b);
+int __CPROVER_uninterpreted_vstr_ncmp(const char *a, const char *b, size_t n);
+int __CPROVER_uninterpreted_vstr_ncasecmp(const char *a, const char *b, size_t n);
+#define VSTR_SGN(x) (((x) > 0) - ((x) < 0))
+#define VSTR_CMP_AXIOMS(F, a, b, ...) do { \
+        __CPROVER_assume((a) != (b) || F((a), (b) __VA_ARGS__) == 0); \
+        __CPROVER_assume(VSTR_SGN(F((a), (b) __VA_ARGS__)) == -VSTR_SGN(F((b), (a) __VA_ARGS__))); } while (0)
+int strcmp(const char *a, const char *b)
+{
+    __CPROVER_assert(a != NULL && b != NULL, "strcmp: arguments not NULL");
+    __CPROVER_assert(__CPROVER_r_ok(a, 1) && __CPROVER_r_ok(b, 1), "strcmp: arguments readable");
+    __CPROVER_assume(a != NULL && b != NULL && __CPROVER_r_ok(a, 1) && __CPROVER_r_ok(b, 1));
+    VSTR_CMP_AXIOMS(__CPROVER_uninterpreted_vstr_cmp, a, b);
+    return __CPROVER_uninterpreted_vstr_cmp(a, b);
+}
+int strcasecmp(const char *a, const char *b)
+{
+    __CPROVER_assert(a != NULL && b != NULL, "strcasecmp: arguments not NULL");
+    __CPROVER_assert(__CPROVER_r_ok(a, 1) && __CPROVER_r_ok(b, 1), "strcasecmp: arguments readable");
+    __CPROVER_assume(a != NULL && b != NULL && __CPROVER_r_ok(a, 1) && __CPROVER_r_ok(b, 1));
+    VSTR_CMP_AXIOMS(__CPROVER_uninterpreted_vstr_casecmp, a, b);
+    return __CPROVER_uninterpreted_vstr_casecmp(a, b);
+}
+int strncmp(const char *a, const char *b, size_t n)
+{
+    __CPROVER_assert(n == 0 || (a != NULL && b != NULL), "strncmp: arguments not NULL");
+    __CPROVER_assert(n == 0 || (__CPROVER_r_ok(a, 1) && __CPROVER_r_ok(b, 1)), "strncmp: arguments readable");
+    __CPROVER_assume(n == 0 || (a != NULL && b != NULL && __CPROVER_r_ok(a, 1) && __CPROVER_r_ok(b, 1)));
+    if (n == 0) return 0;
+#define VSTR_N , n
+    VSTR_CMP_AXIOMS(__CPROVER_uninterpreted_vstr_ncmp, a, b, VSTR_N);
+    return __CPROVER_uninterpreted_vstr_ncmp(a, b, n);
+}
+int strncasecmp(const char *a, const char *b, size_t n)
+{
+    __CPROVER_assert(n == 0 || (a != NULL && b != NULL), "strncasecmp: arguments not NULL");
+    __CPROVER_assert(n == 0 || (__CPROVER_r_ok(a, 1) && __CPROVER_r_ok(b, 1)), "strncasecmp: arguments readable");
+    __CPROVER_assume(n == 0 || (a != NULL && b != NULL && __CPROVER_r_ok(a, 1) && __CPROVER_r_ok(b, 1)));
+    if (n == 0) return 0;
+    VSTR_CMP_AXIOMS(__CPROVER_uninterpreted_vstr_ncasecmp, a, b, VSTR_N);
+    return __CPROVER_uninterpreted_vstr_ncasecmp(a, b, n);
 }
 
 /* ---- snprintf / vsnprintf --------------------------------------------------
